@@ -45,4 +45,12 @@ PROPS = {
         "quick": {"shards": 8, "timeout_s": 900, "floors": {"distinct_nontrivial": 150, "gated_executions": 1000, "delayed_executions": 500, "order_signatures": 50, "scenarios_with_class_missing_errors": 20}},
         "thorough": {"shards": 16, "timeout_s": 3400, "floors": {"distinct_nontrivial": 8000}, "engines": ["miri:c10", "tsan:c10"]},
     },
+    "C01": {
+        "quick": {"shards": 8, "timeout_s": 900, "floors": {"distinct_nontrivial": 300, "calls": 2000, "continuations": 3000, "new_tracks": 500, "empty_calls": 20, "stored_tracks_cross_checked": 3000}},
+        "thorough": {"shards": 16, "timeout_s": 3400, "floors": {"distinct_nontrivial": 20000}},
+    },
+    "C03": {
+        "quick": {"shards": 8, "timeout_s": 900, "floors": {"distinct_nontrivial": 40, "expired_tracks": 100, "tracks_handed_out": 100, "calls_with_expired_tracks_still_in_live_store": 20, "idle_tracks_listed": 50, "tracks_cleared": 10, "gc_timing_variants_compared": 50, "steps_checked": 3000}},
+        "thorough": {"shards": 16, "timeout_s": 3400, "floors": {"distinct_nontrivial": 3000}},
+    },
 }
